@@ -451,6 +451,66 @@ fn result_ownership(r: &mut Rep) {
     }
 }
 
+// Results that live in the arithmetic flags: the closure's last operation sets the flags its result is read from (decrement to
+// zero, carry of an addition, a comparison, an atomic decrement) and the caller branches on the result right after the section.
+#[inline(never)]
+fn flag_result_taken(out: &mut [u64; 2]) {
+    unsafe { core::ptr::write_volatile(&mut out[1], 0xaaaa) };
+}
+macro_rules! flag_result_site {
+    ($name:ident, |$a:ident, $b:ident| $body:expr) => {
+        #[inline(never)]
+        fn $name($a: *mut u64, $b: u64) -> u64 {
+            // a raw pointer: the cell may be visible to an interrupt handler, so its accesses stay inside the section
+            #[allow(unused_unsafe)]
+            let hit: bool = interrupts::without_interrupts(|| unsafe { $body });
+            let mut out = [0u64; 2];
+            if hit {
+                unsafe { core::ptr::write_volatile(&mut out[0], 1) };
+                flag_result_taken(&mut out);
+            } else {
+                unsafe { core::ptr::write_volatile(&mut out[1], 0x5555) };
+            }
+            unsafe { core::ptr::read_volatile(&out[1]) }
+        }
+    };
+}
+flag_result_site!(fr_dec, |a, _b| { *a -= 1; *a == 0 });
+flag_result_site!(fr_carry, |a, b| { let (s, c) = (*a).overflowing_add(b); *a = s; c });
+flag_result_site!(fr_less, |a, b| *a < b);
+flag_result_site!(fr_atomic, |a, _b| std::sync::atomic::AtomicU64::from_ptr(a).fetch_sub(1, std::sync::atomic::Ordering::SeqCst) == 1);
+flag_result_site!(fr_and, |a, b| { *a &= b; *a == 0 });
+flag_result_site!(fr_signed, |a, b| { *a = (*a).wrapping_sub(b); (*a as i64) < 0 });
+
+fn flag_results(r: &mut Rep) {
+    let sites: &[(&str, fn(*mut u64, u64) -> u64, fn(u64, u64) -> bool)] = &[
+        ("decrement-to-zero", fr_dec, |a, _| a - 1 == 0),
+        ("carry", fr_carry, |a, b| a.checked_add(b).is_none()),
+        ("less-than", fr_less, |a, b| a < b),
+        ("atomic-decrement-to-zero", fr_atomic, |a, _| a == 1),
+        ("and-is-zero", fr_and, |a, b| a & b == 0),
+        ("difference-negative", fr_signed, |a, b| (a.wrapping_sub(b) as i64) < 0),
+    ];
+    for &(name, f, want) in sites {
+        for if0 in [false, true] {
+            for (a, b) in [(1u64, 1u64), (2, 1), (3, 5), (u64::MAX, 1), (u64::MAX, 0), (0xf0, 0x0f), (0xf0, 0x10), (5, 3), (1, 2)] {
+                let c = cpu();
+                c.rflags_sys = if if0 { 0x202 } else { 0x2 };
+                c.clear_events();
+                use std::hint::black_box as bb;
+                let mut cell = bb(a);
+                let res = run_stepped(|| f(&mut cell, bb(b)));
+                r.ev(true);
+                r.transitions += c.evs().len() as u64;
+                let exp = if want(a, b) { 0xaaaa } else { 0x5555 };
+                if res != Ok(exp) || c.interrupts_enabled() != if0 {
+                    r.viol("C17|without_interrupts|result-that-the-closure-left-in-the-arithmetic-flags-reaches-the-caller-wrong", &format!("flagresult {} {} {:#x} {:#x}", name, if0 as u8, a, b), &format!("{:x?} expected {:#x}", res, exp));
+                }
+            }
+        }
+    }
+}
+
 fn leaf_shapes(r: &mut Rep) {
     let shapes: &[(&str, fn(u64) -> u64, fn(u64) -> u64)] = &[
         ("leaf1", leaf1, ref1), ("leaf2", leaf2, ref2), ("leaf3n", leaf3, ref3), ("leaf4", leaf4, ref4), ("leaf6n", leaf6, ref6), ("leaf8", leaf8, ref8),
@@ -498,6 +558,8 @@ pub fn run(a: &Args) {
             leaf_shapes(&mut r);
         } else if t[0] == "own" {
             result_ownership(&mut r);
+        } else if t[0] == "flagresult" {
+            flag_results(&mut r);
         } else {
             simple_ops(&mut r);
         }
@@ -570,6 +632,7 @@ pub fn run(a: &Args) {
         guarded(&mut r, "C17|enable/disable/are_enabled|unexpected-panic", || "flagops".into(), |r| simple_ops(r));
         guarded(&mut r, "C17|without_interrupts|unexpected-panic", || "leaf".into(), |r| leaf_shapes(r));
         guarded(&mut r, "C17|without_interrupts|unexpected-panic", || "own".into(), |r| result_ownership(r));
+        guarded(&mut r, "C17|without_interrupts|unexpected-panic", || "flagresult".into(), |r| flag_results(r));
     }
     if a.shard == 2 % a.nshards {
         guarded(&mut r, "C17|enable_and_hlt|unexpected-panic", || "hltsite".into(), |r| hlt_placement(r));
